@@ -12,6 +12,12 @@ behaviour-preserving by construction:
   flip     `a < b` -> `b > a`, `a == b` -> `b == a`, ...
   notin    `a not in s` -> `not a in s`, `a != b` -> `not a == b`
   early    `if c: ...return` `else: REST` -> `if c: ...return` ; REST             (function bodies)
+  rettemp  `return E`                   ->  `result = E` ; `return result`
+  splitif  `if a and b: X`              ->  `if a:` `if b: X`                      (no else)
+  comp2loop `x = [e for t in it if c]`  ->  `x = []` ; `for t in it:` `if c: x.append(e)`
+  loop2comp the reverse (accumulation loops whose body is just the guarded append)
+  pow      `a ** b` <-> `pow(a, b)`
+  gsize    `G.order()` <-> `G.number_of_nodes()`, `len(G.edges())` <-> `G.number_of_edges()`
 
 Each variant is written to a scratch copy of the package (tempfile, removed afterwards) and judged by the quick
 check of every property that lists the edited file.  Nothing from gcmpy is imported or executed.  A VIOLATED verdict
@@ -232,6 +238,115 @@ def variants_of(tree):
                     blk2[si + 1:si + 1] = rest
                     ast.fix_missing_locations(t2)
                     yield "early", f"`else` after returning `if {ast.unparse(s.test)[:40]}` flattened", s.lineno, fn.name, t2
+        # ---------------- more structural edits
+        for bi, (owner, field, blk) in enumerate(blocks):
+            for si, s in enumerate(blk):
+                def fresh():
+                    t2 = copy.deepcopy(tree)
+                    fn2 = list(_functions(t2))[fi]
+                    o2, f2, blk2 = _blocks(fn2)[bi]
+                    return t2, o2, blk2, blk2[si]
+                if isinstance(s, ast.Return) and s.value is not None and not isinstance(s.value, (ast.Name, ast.Constant)):
+                    t2, o2, blk2, s2 = fresh()
+                    blk2.insert(si, ast.Assign(targets=[ast.Name(id="result_tw", ctx=ast.Store())], value=s2.value, lineno=s2.lineno, col_offset=s2.col_offset))
+                    s2.value = ast.Name(id="result_tw", ctx=ast.Load())
+                    ast.fix_missing_locations(t2)
+                    yield "rettemp", f"`{ast.unparse(s)[:60]}` through a local", s.lineno, fn.name, t2
+                if isinstance(s, ast.If) and not s.orelse and isinstance(s.test, ast.BoolOp) and isinstance(s.test.op, ast.And) and len(s.test.values) == 2:
+                    t2, o2, blk2, s2 = fresh()
+                    a_, b_ = s2.test.values
+                    inner = ast.If(test=b_, body=s2.body, orelse=[])
+                    s2.test, s2.body = a_, [inner]
+                    ast.fix_missing_locations(t2)
+                    yield "splitif", f"`if {ast.unparse(s.test)[:50]}` split into nested ifs", s.lineno, fn.name, t2
+                if isinstance(s, (ast.Assign, ast.AnnAssign)) and isinstance(s.value, ast.ListComp) and len(s.value.generators) == 1 and not s.value.generators[0].is_async:
+                    tg = s.targets[0] if isinstance(s, ast.Assign) and len(s.targets) == 1 else (s.target if isinstance(s, ast.AnnAssign) else None)
+                    if isinstance(tg, ast.Name) and not any(isinstance(x, ast.Name) and x.id == tg.id for x in ast.walk(s.value)):
+                        t2, o2, blk2, s2 = fresh()
+                        comp = s2.value
+                        g = comp.generators[0]
+                        body = [ast.Expr(value=ast.Call(func=ast.Attribute(value=ast.Name(id=tg.id, ctx=ast.Load()), attr="append", ctx=ast.Load()), args=[comp.elt], keywords=[]))]
+                        for c in reversed(g.ifs):
+                            body = [ast.If(test=c, body=body, orelse=[])]
+                        blk2[si] = ast.Assign(targets=[ast.Name(id=tg.id, ctx=ast.Store())], value=ast.List(elts=[], ctx=ast.Load()), lineno=s2.lineno, col_offset=s2.col_offset)
+                        blk2.insert(si + 1, ast.For(target=g.target, iter=g.iter, body=body, orelse=[], lineno=s2.lineno, col_offset=s2.col_offset))
+                        ast.fix_missing_locations(t2)
+                        yield "comp2loop", f"`{ast.unparse(s)[:60]}` written out as a loop", s.lineno, fn.name, t2
+                # x = [] ; for t in it: [if c:] x.append(e)   (adjacent statements)
+                if isinstance(s, (ast.Assign, ast.AnnAssign)) and isinstance(s.value, ast.List) and not s.value.elts and si + 1 < len(blk) and isinstance(blk[si + 1], ast.For) and not blk[si + 1].orelse:
+                    tg = s.targets[0] if isinstance(s, ast.Assign) and len(s.targets) == 1 else (s.target if isinstance(s, ast.AnnAssign) else None)
+                    lp = blk[si + 1]
+                    body, ifs, ok = lp.body, [], isinstance(tg, ast.Name)
+                    while ok:
+                        if len(body) != 1:
+                            ok = False
+                        elif isinstance(body[0], ast.If) and not body[0].orelse:
+                            ifs.append(body[0].test)
+                            body = body[0].body
+                        elif isinstance(body[0], ast.Expr) and isinstance(body[0].value, ast.Call) and isinstance(body[0].value.func, ast.Attribute) and body[0].value.func.attr == "append" \
+                                and isinstance(body[0].value.func.value, ast.Name) and body[0].value.func.value.id == tg.id and len(body[0].value.args) == 1:
+                            break
+                        else:
+                            ok = False
+                    if ok and not any(isinstance(x, ast.Name) and x.id == tg.id for x in ast.walk(body[0].value.args[0])) \
+                            and not any(isinstance(x, ast.Name) and x.id == tg.id for c in ifs + [lp.iter] for x in ast.walk(c)):
+                        t2, o2, blk2, s2 = fresh()
+                        lp2 = blk2[si + 1]
+                        b2, ifs2 = lp2.body, []
+                        while isinstance(b2[0], ast.If):
+                            ifs2.append(b2[0].test)
+                            b2 = b2[0].body
+                        comp = ast.ListComp(elt=b2[0].value.args[0], generators=[ast.comprehension(target=lp2.target, iter=lp2.iter, ifs=ifs2, is_async=0)])
+                        s2.value = comp
+                        del blk2[si + 1]
+                        ast.fix_missing_locations(t2)
+                        yield "loop2comp", f"accumulation into `{tg.id}` written as a comprehension", s.lineno, fn.name, t2
+        # ---------------- library synonyms
+        own = list(_own_nodes(fn))
+        for ni, n in enumerate(own):
+            new = None
+            desc = None
+            if isinstance(n, ast.BinOp) and isinstance(n.op, ast.Pow):
+                desc = f"`{ast.unparse(n)[:50]}` written with pow()"
+                def mk(n2):
+                    return ast.Call(func=ast.Name(id="pow", ctx=ast.Load()), args=[n2.left, n2.right], keywords=[])
+            elif isinstance(n, ast.Call) and isinstance(n.func, ast.Name) and n.func.id == "pow" and len(n.args) == 2 and not n.keywords:
+                desc = f"`{ast.unparse(n)[:50]}` written with **"
+                def mk(n2):
+                    return ast.BinOp(left=n2.args[0], op=ast.Pow(), right=n2.args[1])
+            elif isinstance(n, ast.Call) and isinstance(n.func, ast.Attribute) and not n.args and n.func.attr in ("order", "number_of_nodes"):
+                other = "number_of_nodes" if n.func.attr == "order" else "order"
+                desc = f"`{ast.unparse(n)[:50]}` written with .{other}()"
+                def mk(n2, other=other):
+                    return ast.Call(func=ast.Attribute(value=n2.func.value, attr=other, ctx=ast.Load()), args=[], keywords=[])
+            elif isinstance(n, ast.Call) and isinstance(n.func, ast.Name) and n.func.id == "len" and len(n.args) == 1 and isinstance(n.args[0], ast.Call) \
+                    and isinstance(n.args[0].func, ast.Attribute) and n.args[0].func.attr in ("edges", "nodes") and not n.args[0].args:
+                meth = "number_of_edges" if n.args[0].func.attr == "edges" else "number_of_nodes"
+                desc = f"`{ast.unparse(n)[:50]}` written with .{meth}()"
+                def mk(n2, meth=meth):
+                    return ast.Call(func=ast.Attribute(value=n2.args[0].func.value, attr=meth, ctx=ast.Load()), args=[], keywords=[])
+            elif isinstance(n, ast.Call) and isinstance(n.func, ast.Attribute) and not n.args and n.func.attr == "number_of_edges":
+                desc = f"`{ast.unparse(n)[:50]}` written with len(.edges())"
+                def mk(n2):
+                    return ast.Call(func=ast.Name(id="len", ctx=ast.Load()), args=[ast.Call(func=ast.Attribute(value=n2.func.value, attr="edges", ctx=ast.Load()), args=[], keywords=[])], keywords=[])
+            if desc is None:
+                continue
+            t2 = copy.deepcopy(tree)
+            fn2 = list(_functions(t2))[fi]
+            own2 = list(_own_nodes(fn2))
+            n2 = own2[ni]
+            par = {id(ch): (p_, f_, i_) for p_ in ast.walk(fn2) for f_, v_ in ast.iter_fields(p_)
+                   for i_, ch in (enumerate(v_) if isinstance(v_, list) else [(None, v_)]) if isinstance(ch, ast.AST)}
+            if id(n2) not in par:
+                continue
+            p_, f_, i_ = par[id(n2)]
+            newn = mk(n2)
+            if i_ is None:
+                setattr(p_, f_, newn)
+            else:
+                getattr(p_, f_)[i_] = newn
+            ast.fix_missing_locations(t2)
+            yield ("pow" if "pow" in desc or "**" in desc else "gsize"), desc, n.lineno, fn.name, t2
         # ---------------- comparisons
         cmps = [n for n in _own_nodes(fn) if isinstance(n, ast.Compare) and len(n.ops) == 1]
         for ci, c in enumerate(cmps):
